@@ -165,6 +165,9 @@ impl<'a, P, T> IntoIterator for &'a PrefixMap<P, T> {
 pub struct IterMut<'a, P, T> {
     table: Option<&'a Table<P, T>>,
     nodes: Vec<usize>,
+    // The iterator hands out `&'a mut T`. This marker makes the auto traits (`Send`, `Sync`)
+    // behave accordingly, i.e., `IterMut` is only `Send` if `T` is `Send`.
+    marker: std::marker::PhantomData<&'a mut T>,
 }
 
 impl<P, T> Default for IterMut<'_, P, T> {
@@ -172,6 +175,7 @@ impl<P, T> Default for IterMut<'_, P, T> {
         Self {
             table: None,
             nodes: Vec::new(),
+            marker: std::marker::PhantomData,
         }
     }
 }
@@ -188,6 +192,7 @@ impl<'a, P, T> IterMut<'a, P, T> {
         Self {
             table: Some(table),
             nodes,
+            marker: std::marker::PhantomData,
         }
     }
 }
@@ -449,6 +454,7 @@ where
         IterMut {
             table: Some(&self.table),
             nodes,
+            marker: std::marker::PhantomData,
         }
     }
 
